@@ -61,7 +61,14 @@ pub trait OperandHandler {
         expand_arrays: ExpandArrays,
     ) {
         match expr {
-            Expr::Lit(_) => Self::replace_literals(expr, arguments),
+            Expr::Lit(_) => {
+                if ident_kind == IdentKind::Spread {
+                    // ...'literal' must reach the hook spread as well, exactly like the call receives it
+                    arguments.push(ident_provider.get_expr_or_spread(expr, ident_kind))
+                } else {
+                    Self::replace_literals(expr, arguments)
+                }
+            }
             Expr::Ident(_) => {
                 if ident_mode == IdentMode::Replace {
                     expr.map_with_mut(|op| {
